@@ -175,6 +175,8 @@ def r17_2(ctx):
                 if isinstance(x, ast.Assign) and const_value(x.value, None) is True and norm(x.targets[0]).startswith("self."):
                     GZ_ATTRS.add(norm(x.targets[0]).split(".", 1)[1])
 
+    if not GZ_ATTRS:
+        raise AnalysisError("R17.2", "gaftools/gaf.py", "cannot find the attribute that records that a GAF was opened as BGZF (the opener of the reader class is not in a recognised form): decode guards are not decided")
     for f0 in repo.all_funcs():
         f = _ti(repo, f0)
         # handles opened by the sniff idiom in this function, or `.file` of a GAF object, or self.file in GAF
@@ -555,5 +557,9 @@ def r17_3(ctx):
     ctx.check(need <= users, "R17.3", "gaftools/", "all six subcommands that take a graph load it through GFA(path, ...)", "gaftools::graph-users", users=sorted(users))
     # the line loop does not depend on how the file was opened
     loops = [l for l in rg.node.body if isinstance(l, ast.For)]
+    if not loops:
+        raise AnalysisError("R17.3", rg.where(), "cannot find the loop over the lines of the graph file in the reader")
     ok2 = bool(loops) and norm(loops[0].iter) == "opened_file" or (bool(loops) and isinstance(loops[0].iter, ast.Name))
+    if not ok2 and isinstance(loops[0].iter, ast.Call) and ctx.repo.resolve_call(rg, loops[0].iter) is not None:
+        raise AnalysisError("R17.3", rg.where(loops[0]), f"the lines are produced by `{norm(loops[0].iter.func)}`: whether one loop serves both forms is not read from it")
     ctx.check(ok2, "R17.3", rg.where(), "one line loop serves both forms", key_of(rg, "one-loop"))
